@@ -861,11 +861,42 @@ class Translator:
             raise Unsupported('body of validator %s' % fn.name)
         return steps[0] if len(steps) == 1 else '(SAll %s)' % g_list(steps)
 
+    # -- the sample_from schema built inside MathMixin.validate_math_config ------------------------
+    def emit_sample_from(self):
+        found = self.w.find_attr('MathMixin', 'validate_math_config')
+        if not found or found[0] != 'func':
+            raise Unsupported('MathMixin.validate_math_config not found')
+        comp = None
+        for s in ast.walk(found[2]):
+            if (isinstance(s, ast.Assign) and len(s.targets) == 1 and isinstance(s.targets[0], ast.Name)
+                    and s.targets[0].id == 'schema_sample_from'):
+                v = s.value
+                if (isinstance(v, ast.Call) and isinstance(v.func, ast.Name) and v.func.id == 'Schema' and len(v.args) == 1
+                        and not v.keywords and isinstance(v.args[0], ast.DictComp)):
+                    comp = v.args[0]
+        if comp is None or len(comp.generators) != 1:
+            raise Unsupported('schema_sample_from is not Schema({... for ...})')
+        g = comp.generators[0]
+        want = "self.config['variables'] + self.config['numbered_vars']"
+        if g.ifs or g.is_async or not isinstance(g.target, ast.Name) or ast.unparse(g.iter) != want:
+            raise Unsupported('schema_sample_from generator: ' + ast.unparse(g.iter))
+        k = comp.key
+        if not (isinstance(k, ast.Call) and isinstance(k.func, ast.Name) and k.func.id == 'Required' and len(k.args) == 1
+                and isinstance(k.args[0], ast.Name) and k.args[0].id == g.target.id and len(k.keywords) == 1
+                and k.keywords[0].arg == 'default'):
+            raise Unsupported('schema_sample_from key')
+        ctx = Ctx('MathMixin', 'MathMixin')
+        self.out.append('Definition gen_sample_from_default (dc : pyval) : pyval :=\n  %s.\n'
+                        % self.tr_value(k.keywords[0].value, ctx))
+        self.out.append('Definition gen_sample_from_value (dc : pyval) : schema :=\n  %s.\n'
+                        % self.tr_schema(comp.value, ctx))
+
     # -- output --------------------------------------------------------------------------------
     def generate(self):
         self.emit_helpers()
         for cls in PUBLIC:
             self.emit_class(cls)
+        self.emit_sample_from()
         w = self.w
         rows = []
         for cls in PUBLIC:
